@@ -108,6 +108,52 @@ pub fn quiet_panics<R>(f: impl FnOnce() -> R) -> Result<R, String> {
     r.map_err(|_| LAST_PANIC.with(|p| p.borrow_mut().take()).unwrap_or_else(|| "panic".into()))
 }
 
+/// A subscriber that enables every span and event and discards them: with it, the field
+/// expressions of `#[instrument]` spans and of events are evaluated as they are under verbose logging.
+pub struct EnableAll(std::sync::atomic::AtomicU64);
+
+impl EnableAll {
+    pub fn new() -> Self {
+        EnableAll(std::sync::atomic::AtomicU64::new(1))
+    }
+}
+
+impl Default for EnableAll {
+    fn default() -> Self {
+        Self::new()
+    }
+}
+
+impl tracing::Subscriber for EnableAll {
+    fn enabled(&self, _: &tracing::Metadata<'_>) -> bool {
+        true
+    }
+    fn new_span(&self, attrs: &tracing::span::Attributes<'_>) -> tracing::span::Id {
+        // format the fields as a logging subscriber would
+        struct V;
+        impl tracing::field::Visit for V {
+            fn record_debug(&mut self, _: &tracing::field::Field, value: &dyn std::fmt::Debug) {
+                let _ = format!("{value:?}");
+            }
+        }
+        attrs.record(&mut V);
+        tracing::span::Id::from_u64(self.0.fetch_add(1, Ordering::Relaxed))
+    }
+    fn record(&self, _: &tracing::span::Id, _: &tracing::span::Record<'_>) {}
+    fn record_follows_from(&self, _: &tracing::span::Id, _: &tracing::span::Id) {}
+    fn event(&self, event: &tracing::Event<'_>) {
+        struct V;
+        impl tracing::field::Visit for V {
+            fn record_debug(&mut self, _: &tracing::field::Field, value: &dyn std::fmt::Debug) {
+                let _ = format!("{value:?}");
+            }
+        }
+        event.record(&mut V);
+    }
+    fn enter(&self, _: &tracing::span::Id) {}
+    fn exit(&self, _: &tracing::span::Id) {}
+}
+
 pub type Task<T> = Pin<Box<dyn Future<Output = Result<T, String>>>>;
 
 pub struct World {
@@ -135,9 +181,22 @@ impl Default for ExecCfg {
     }
 }
 
+thread_local! {
+    /// run the next worlds of this thread under a subscriber that enables every span and event
+    pub static VERBOSE_TRACING: std::cell::Cell<bool> = const { std::cell::Cell::new(false) };
+}
+
 /// Drives the tasks (one per endpoint) to completion under `sched`.
 /// `arm` is called after the hook state was reset and before the first poll (to arm taps).
-pub fn run_world<T>(
+pub fn run_world<T>(world: &World, tasks: Vec<Option<Task<T>>>, sched: &mut dyn Sched, cfg: &ExecCfg, arm: impl FnOnce()) -> RunResult<T> {
+    if VERBOSE_TRACING.with(|v| v.get()) {
+        tracing::subscriber::with_default(EnableAll::new(), || run_world_inner(world, tasks, sched, cfg, arm))
+    } else {
+        run_world_inner(world, tasks, sched, cfg, arm)
+    }
+}
+
+fn run_world_inner<T>(
     world: &World,
     mut tasks: Vec<Option<Task<T>>>,
     sched: &mut dyn Sched,
